@@ -35,7 +35,10 @@ BAD = [
 
 # built-in names a user may rebind (none of them is used by the harness' own snippets); value = what a fresh interpreter binds
 SHADOWABLE = [("clock", {"o": "native"}), ("Range", cls("Range")), ("HashMap", cls("HashMap")), ("Nil", cls("Nil")), ("Bool", cls("Boolean")),
-              ("Func", cls("Func")), ("Tuple", cls("Tuple")), ("Method", cls("Method"))]
+              ("Func", cls("Func")), ("Tuple", cls("Tuple")), ("Method", cls("Method")),
+              # names the core library (not the interpreter) defines: a reset must bring their original bindings back as well
+              ("ValueError", cls("ValueError")), ("IndexError", cls("IndexError")), ("ImportError", cls("ImportError")),
+              ("AttributeError", cls("AttributeError"))]
 
 
 SMREG = "var hooks = [];\n"
